@@ -33,7 +33,7 @@ static Json genC03(const std::string &prop, uint64_t seed, const std::string &ti
         else if (member == 6) addPinOps(g, false);
         else if (member == 8) { g.ortho = true; g.polygons = false; addJunctionOps(g, 0.5); g.pinsGeometry = true; g.minShapes = 3; }   // free junctions: routes as adjusted by hyperedge improvement (on by default) are judged too
         else if (member == 7) { g.allowCover = true; g.polygons = false; }      // shapes dragged over free end points and on      // end points on pins (insideOffset >= 1): the route may only pass through the shapes it is attached to
-        if (g.ortho) { g.params[P_nudgeDist] = r.pick(std::vector<double>{0, 4, 10}); g.options[O_nudgeAttached] = r.chance(0.3); g.options[O_unifying] = r.chance(0.7); }
+        if (g.ortho) { g.params[P_nudgeDist] = r.pick(std::vector<double>{0, 4, 10}); g.options[O_nudgeAttached] = r.chance(0.3); g.options[O_unifying] = r.chance(0.7); g.options[O_nudgeTouching] = r.chance(0.3); }
         g.outputOps = r.chance(0.2);
         if (tier == "thorough") { g.maxShapes = 10; g.maxConns = 8; g.maxSteps = 10; }
         ss.push(genRouterSession(r, g));
